@@ -67,6 +67,18 @@ func c16attempt(seed int64, i int, nkeys int, tier string) (int, *vaa.VAA) {
 	}
 	v.Payload = make([]byte, n)
 	r.Read(v.Payload)
+	// StoreSignedVAA stores whatever Marshal writes and acknowledges it; the decoder is NOT the inverse of that: one attempt in
+	// twenty-five is a VAA vaa.Unmarshal rejects (empty / nil payload - a contract publishing an empty message -, a version other
+	// than 1). The store carries bytes: such a VAA is acknowledged like any other, has to come back byte-exact, and the directory
+	// has to reopen with it inside (drawn last: every other attempt is what it was).
+	switch r.Intn(100) {
+	case 0, 1:
+		v.Payload = []byte{}
+	case 2:
+		v.Payload = nil
+	case 3:
+		v.Version = uint8(2 * r.Intn(2)) // 0 or 2
+	}
 	return k, v
 }
 
